@@ -330,7 +330,8 @@ CHECKS["C08"] = {
     "assumptions": MUX_STUBS + ["lock-set discipline + happens-before from thread creation only (other happens-before edges are not modelled: such candidates are filtered by the native race detector, never reported unconfirmed)",
                                 "atomic-snapshot and monotonicity sub-claims: playlists are generated with the muxer mutex held (C03-C06 constrain each snapshot)"],
     "outside": ["races between two readers on objects the bounded runs never create", "races the native stress run does not reproduce (listed as unconfirmed candidates in evidence)", "compiler / hardware reordering beyond the Go memory model"],
-    "runs": [c08run("conc.race.ll.disk", 3, 1, 3, 4), c08run("conc.race.fmp4.ram", 2, 0, 4, 5), c08run("conc.race.ts.disk", 1, 1, 3, 4)],
+    "runs": [c08run("conc.race.ll.disk", 3, 1, 3, 4), c08run("conc.race.fmp4.ram", 2, 0, 4, 5), c08run("conc.race.ts.disk", 1, 1, 3, 4),
+             dict(c08run("conc.race.ts.expiry", 1, 0, 6, 7), params={"VARIANT": 1, "DISK": 0, "ALLIDR": 1})],
 }
 
 TSSTEP = {"name": "step.ts.audio", "files": [G + "c02_step.go"] + MUX, "fn": "VerifH_C02_tsAudioStep", "workers": 16, "params": {"SEGMAXSIZE": 20},
@@ -351,8 +352,8 @@ CLITS = [G + "cli_ts.go"] + CLIP
 TSRUN = {"name": "run.cli.ts", "files": CLITS, "fn": "VerifH_C10_ts", "workers": 16, "params_quick": {"MAXSEGS": 2, "MAXV": 1, "MAXA": 1}, "params_thorough": {"MAXSEGS": 2, "MAXV": 2, "MAXA": 2},
          "reach": ["ran"], "budget_quick": 900, "budget_thorough": 7200, "qtimeout": 90000}
 CHECKS["C10"]["runs"] = CHECKS["C10"]["runs"] + [TSRUN]
-CHECKS["C09"]["runs"] = CHECKS["C09"]["runs"] + [dict(TSRUN, name="client.ts.times")]
-CHECKS["C12"]["runs"] = CHECKS["C12"]["runs"] + [{"name": "conc.ts.backpressure", "files": CLITS, "fn": "VerifH_C12_tsBackpressure", "workers": 4, "reach": ["backpressure", "end"], "native": False}]
+CHECKS["C09"]["runs"] = CHECKS["C09"]["runs"] + [dict(TSRUN, name="client.ts.times", prop="C10")]  # the client half of C09 (assertions carry C10's label)
+CHECKS["C12"]["runs"] = CHECKS["C12"]["runs"] + [{"name": "conc.ts.backpressure", "files": CLITS, "fn": "VerifH_C12_tsBackpressure", "workers": 4, "reach": ["backpressure", "end"], "replay_timeout": 120}]
 CHECKS["C10"]["outside"] = ["MPEG-TS demuxing itself (mpegts.Reader is the boundary; TimeDecoder is interpreted)", "rendition playlists processed by a second stream processor", "byte-range addressing (C11)",
                             "AbsoluteTime of non-leading MPEG-TS units that precede their segment's first leading unit in file order when PROGRAM-DATE-TIME is inconsistent with media time (they are anchored through the previous segment)"]
 
